@@ -80,6 +80,8 @@ DROPIN_SEQS_QUICK = [
     ('hooks_newest_first', [_op(A, 0, 0, 3, 1), _op(A, 1, 1, 3, 1), _op(R, 0)]),
     ('readd_moves_front', [_op(A, 0, 0, 3), _op(A, 1, 0, 3), _op(A, 0, 0, 3)]),
     ('remove_absent_then_add', [_op(R, 1), _op(A, 1, 3, 2)]),
+    ('engine_refuses_with_hook', [_op(A, 0, 5, 3, 1), _op(A, 1, 0, 3, 0)]),
+    ('engine_refuses_second_ruleset', [_op(A, 0, 6, 3, 1), _op(A, 1, 1, 3, 0)]),
 ]
 DROPIN_SEQS_MORE = [
     ('four_then_remove_second', [_op(A, 0, 0, 3), _op(A, 1, 0, 3), _op(A, 2, 0, 3), _op(A, 3, 0, 3), _op(R, 2)]),
@@ -95,7 +97,7 @@ DROPIN_FLAGS_ALL = [(7, 7), (6, 3), (5, 6), (0, 7), (1, 1), (2, 4), (4, 2), (3, 
 
 
 def _dropin_variants(seqs, flags, timeout):
-    return [dict(name='%s_f%d%d' % (n, f0, f1), defs={'H_K': len(ops), 'H_OPS': '{' + ','.join(str(o) for o in ops) + '}', 'H_FLAGS': '{%d,%d}' % (f0, f1), 'H_MAXTARGET': 4, 'H_HOOKS': 1}, unwind=max(11, 2 * len(ops) + 3), reach_optional=True, timeout=timeout)
+    return [dict(name='%s_f%d%d' % (n, f0, f1), defs={'H_K': len(ops), 'H_OPS': '{' + ','.join(str(o) for o in ops) + '}', 'H_FLAGS': '{%d,%d}' % (f0, f1), 'H_MAXTARGET': 6, 'H_HOOKS': 1}, unwind=max(11, 2 * len(ops) + 3), reach_optional=True, timeout=timeout)
             for n, ops in seqs for (f0, f1) in flags]
 
 
